@@ -51,6 +51,9 @@ def run(ctx):
         # a repeated query is answered from the table alone: the provider is not even polled for cancellation on a hit (seed C20-13)
         import c04
         ctx.guard("cached-implies-ok" + tag, c04.cached_implies_ok, ctx, crate, crs, tag)
+        # the per-requirement list of a union is the concatenation of its members' lists in the union's own order (seed C20-18)
+        import c07
+        ctx.guard("order-preserved" + tag, c07.order_preserved, ctx, crate, crs, tag)
 
 
 def sorted_provenance(ctx, crate, crs, tag):
